@@ -195,7 +195,7 @@ def run(R, tier):
                 okv = okv and "numeric_value_max" in cm.get("le", "") and "numeric_value_min" in cm.get("ge", "")
             elif M.outcome(r) != "Err(DataOutOfRange)":
                 okv = False
-        if not (okv and n_okv == 1):
+        if not (okv and n_okv >= 1):
             bad.append("build().finish() of a plain value: %s" % [(M.outcome(r)) for r in rs])
         R.check(not bad, "R17.5", "routes", "MAXimum / MINimum / DEFault resolve to what the constructors and setters were given, in every order of the setters (%d routes)" % n_routes, "; ".join(bad[:3]), where=build_b.span)
 
